@@ -290,6 +290,12 @@ func snakeBoard(r *rand.Rand, size int) *tak.Position {
 }
 
 func runC02(c *ctx) {
+	if c.tier == "replay" {
+		if p, err := decodeEnc(readReplay(c).Input); err == nil {
+			emitC02(c, p, "replay")
+		}
+		return
+	}
 	r := c.r
 	for b := 0; b < 120*c.scale; b++ {
 		emitC02(c, snakeBoard(r, 3+b%6), "snake")
